@@ -46,18 +46,28 @@ fn err_class(e: &Error) -> &'static str {
         ErrorCode::TxTimeout => "timeout",
         ErrorCode::Duplicate => "dup",
         ErrorCode::NoExchange => "noexch",
+        ErrorCode::NoSession => "nosess",
         _ => "err",
     }
 }
 
 // ------------------------------------------------------------------ N: session op sequences
 
-fn run_n(ctr0: u32, nex: usize, ops: &str) -> String {
+/// `anywhere`: `None` = a new session (the start counter is masked to 28 bits by `Session::new`);
+/// `Some(case)` = a session (CASE or PASE) whose counter stands at exactly `ctr0`, anywhere in the 32-bit range.
+fn run_n(ctr0: u32, nex: usize, ops: &str, anywhere: Option<bool>) -> String {
     let mut s = Session::new(1, ctr0, false, Address::new(), None, 300, 300, 4000);
-    s.verif_set_session_mode(SessionMode::Case {
-        fab_idx: NonZeroU8::new(1).unwrap(),
-        cat_ids: Default::default(),
-    });
+    if anywhere == Some(false) {
+        s.verif_set_session_mode(SessionMode::Pase { fab_idx: 0 });
+    } else {
+        s.verif_set_session_mode(SessionMode::Case {
+            fab_idx: NonZeroU8::new(1).unwrap(),
+            cat_ids: Default::default(),
+        });
+    }
+    if anywhere.is_some() {
+        s.verif_set_raw(ctr0, false, false, None);
+    }
     for e in 0..nex {
         s.verif_add_exch(100 + e as u16, e % 2 == 0).unwrap();
     }
@@ -115,7 +125,7 @@ fn run_n(ctr0: u32, nex: usize, ops: &str) -> String {
         }
     }
     let snap = s.verif_snapshot();
-    write!(out, " ctr={}", snap.msg_ctr).unwrap();
+    write!(out, " ctr={} exp={}", snap.msg_ctr, snap.expired as u8).unwrap();
     out
 }
 
@@ -391,7 +401,8 @@ fn run_e2e(kind: &str, f: &[&str]) -> String {
 fn run_line(line: &str, out: &mut String) {
     let f: Vec<&str> = line.split(' ').collect();
     match f[0] {
-        "N" => writeln!(out, "N {} {}", f[1], run_n(f[2].parse().unwrap(), f[3].parse().unwrap(), f.get(4).copied().unwrap_or(""))).unwrap(),
+        "N" => writeln!(out, "N {} {}", f[1], run_n(f[2].parse().unwrap(), f[3].parse().unwrap(), f.get(4).copied().unwrap_or(""), None)).unwrap(),
+        "M" => writeln!(out, "M {} {}", f[1], run_n(f[2].parse().unwrap(), f[3].parse().unwrap(), f.get(5).copied().unwrap_or(""), Some(f[4] == "c"))).unwrap(),
         "A" => writeln!(out, "A {} {}", f[1], run_a(f[2].parse().unwrap(), f.get(3).copied().unwrap_or(""))).unwrap(),
         "X" => writeln!(out, "X {} {}", f[1], run_x(f[2].parse().unwrap(), f.get(3).copied().unwrap_or(""))).unwrap(),
         "P" | "C" | "Q" => writeln!(out, "{} {} {}", f[0], f[1], run_e2e(f[0], &f[2..])).unwrap(),
@@ -411,14 +422,24 @@ fn generate(tier: &str, seed: u64) -> Vec<String> {
     // --- session op sequences
     for _ in 0..(if thorough { 40_000 } else { 4_000 }) {
         let nex = rng.range(1, 4) as usize;
-        let ctr0 = if rng.chance(1, 4) { *rng.pick(&[0u64, 1, 0x0fff_ffff, 0x0fff_fffe, 0xffff_ffff]) } else { rng.below(1 << 32) };
+        // one trace in four runs on a long-lived session (CASE or PASE) whose counter stands anywhere in
+        // the 32-bit range, half of those within reach of the end of the range
+        let anywhere = rng.chance(1, 4);
+        let case_mode = rng.chance(2, 3);
+        let ctr0 = if anywhere && rng.chance(1, 2) {
+            0xffff_ffffu64 - rng.below(24)
+        } else if rng.chance(1, 4) {
+            *rng.pick(&[0u64, 1, 0x0fff_ffff, 0x0fff_fffe, 0xffff_ffff])
+        } else {
+            rng.below(1 << 32)
+        };
         let len = rng.range(1, 30);
         let mut peer_ctr = rng.below(1000) + 1;
         let mut sent: Vec<Vec<u64>> = vec![Vec::new(); nex];
         let mut ops = Vec::new();
         let mut m = 0u64;
         // the harness cannot see the session counter: track it (ctr0 & 0x0fffffff, +1 per fresh send)
-        let mut next_ctr = ctr0 & 0x0fff_ffff;
+        let mut next_ctr = if anywhere { ctr0 } else { ctr0 & 0x0fff_ffff };
         let mut pending: Vec<Option<u64>> = vec![None; nex];
         // (message id, transmissions so far) of the message pending on each exchange
         let mut pending_m: Vec<Option<(u64, u32)>> = vec![None; nex];
@@ -439,7 +460,9 @@ fn generate(tier: &str, seed: u64) -> Vec<String> {
                 };
                 let rel = if pending_m[e].is_some() && honest { true } else { rel };
                 ops.push(format!("s:{}:{}:{}", e, msg, rel as u8));
-                if pending[e].is_none() {
+                if pending[e].is_none() && next_ctr >= 0xffff_ffff {
+                    // the counter range is used up: the send is refused
+                } else if pending[e].is_none() {
                     sent[e].push(next_ctr);
                     if rel {
                         pending[e] = Some(next_ctr);
@@ -479,7 +502,17 @@ fn generate(tier: &str, seed: u64) -> Vec<String> {
                 ops.push(format!("r:{}:{}:{}:{}", e, peer_ctr, ack, rel as u8));
             }
         }
-        cases.push(format!("N {} {} {} {}", nid(), ctr0, nex, ops.join(",")));
+        if anywhere {
+            cases.push(format!("M {} {} {} {} {}", nid(), ctr0, nex, if case_mode { "c" } else { "p" }, ops.join(",")));
+        } else {
+            cases.push(format!("N {} {} {} {}", nid(), ctr0, nex, ops.join(",")));
+        }
+    }
+    // the end of the counter range, step by step: the last usable counter is 2^32-2
+    for start in [0xffff_fffcu64, 0xffff_fffd, 0xffff_fffe, 0xffff_ffff] {
+        for mode in ["c", "p"] {
+            cases.push(format!("M {} {} 2 {} s:0:1:0,s:1:2:1,s:0:3:0,s:1:2:1,s:0:4:0,r:1:7:{}:0,s:1:5:1,s:0:6:0", nid(), start, mode, (start + 1).min(0xffff_ffff)));
+        }
     }
     // give-up path: the same message 8 times
     cases.push(format!("N {} 500 1 {}", nid(), vec!["s:0:1:1"; 8].join(",")));
